@@ -10,6 +10,7 @@ def run(ctx):
     satlayer.rule_reply_is_stdout(ctx)
     satlayer.rule_reply_parser(ctx)
     satlayer.rule_reply_read_errors_abort(ctx)
+    satlayer.rule_feeder_writes_what_it_read(ctx)
     satlayer.rule_verdict_tables(ctx)
     ctx.assume("rustc's MIR; std::process / std::io semantics of wait, read_to_end, piped stdio")
     ctx.assume("format_args! template decoding follows library/core/src/fmt/mod.rs of the installed toolchain")
